@@ -29,13 +29,13 @@ func (r Res) String() string { return [...]string{"unsat", "sat", "unknown"}[r] 
 // Solver wraps one Z3 context + incremental solver (in-process) and routes hard
 // arithmetic to text back ends.
 type Solver struct {
-	ctx       C.Z3_context
-	s         C.Z3_solver
-	gen       uint32
-	vars      map[string]C.Z3_ast
-	asserted  []*Term
-	hardPC    bool
-	timeoutMS int
+	ctx        C.Z3_context
+	s          C.Z3_solver
+	gen        uint32
+	vars       map[string]C.Z3_ast
+	asserted   []*Term
+	hardPC     bool
+	timeoutMS  int
 	pathsOnCtx int
 
 	// statistics
@@ -179,6 +179,31 @@ func (z *Solver) mk(t *Term) C.Z3_ast {
 		r = C.Z3_mk_fpa_to_sbv(c, z.rtz, z.toFP(t.A[0]), C.uint(w))
 	case OFToUI:
 		r = C.Z3_mk_fpa_to_ubv(c, z.rtz, z.toFP(t.A[0]), C.uint(w))
+	case OFAdd:
+		r = C.Z3_mk_fpa_to_ieee_bv(c, C.Z3_mk_fpa_add(c, z.rne, z.toFP(t.A[0]), z.toFP(t.A[1])))
+	case OFSub:
+		r = C.Z3_mk_fpa_to_ieee_bv(c, C.Z3_mk_fpa_sub(c, z.rne, z.toFP(t.A[0]), z.toFP(t.A[1])))
+	case OFMul:
+		r = C.Z3_mk_fpa_to_ieee_bv(c, C.Z3_mk_fpa_mul(c, z.rne, z.toFP(t.A[0]), z.toFP(t.A[1])))
+	case OFDiv:
+		r = C.Z3_mk_fpa_to_ieee_bv(c, C.Z3_mk_fpa_div(c, z.rne, z.toFP(t.A[0]), z.toFP(t.A[1])))
+	case OFSqrt:
+		r = C.Z3_mk_fpa_to_ieee_bv(c, C.Z3_mk_fpa_sqrt(c, z.rne, z.toFP(t.A[0])))
+	case OFRnd:
+		var rm C.Z3_ast
+		switch t.C {
+		case 0:
+			rm = z.rtz
+		case 1:
+			rm = C.Z3_mk_fpa_round_toward_negative(c)
+		case 2:
+			rm = C.Z3_mk_fpa_round_toward_positive(c)
+		case 3:
+			rm = C.Z3_mk_fpa_round_nearest_ties_to_away(c)
+		default:
+			rm = z.rne
+		}
+		r = C.Z3_mk_fpa_to_ieee_bv(c, C.Z3_mk_fpa_round_to_integral(c, rm, z.toFP(t.A[0])))
 	case OSIToF:
 		r = C.Z3_mk_fpa_to_ieee_bv(c, C.Z3_mk_fpa_to_fp_signed(c, z.rne, z.mk(t.A[0]), z.fsort(w)))
 	case OUIToF:
